@@ -264,6 +264,16 @@ func (c *Ctx) npContract(s npSite, fx *Facts) npResult {
 			}
 		}
 		if !found {
+			// all dominating tests together (nested switches: the outer case list minus the inner cases ruled out)
+			skip := func(a DomFact) bool {
+				return strings.Contains(subj, ".") && strings.Contains(subj, "value(") && c.factClobbered(a, s.in, fx)
+			}
+			if comb, ok := c.kindSetAt(s.in.Block(), subj, skip); ok && len(comb) > 0 && kindAllowed(comb, ct.kinds) {
+				found = true
+				bys = append(bys, "kind ∈ {"+kindNames(comb)+"} by the dominating kind tests combined")
+			}
+		}
+		if !found {
 			// by construction: reflect.New(T) is a Ptr; Indirect(New(..)) etc.
 			if k, ok := c.kindByConstruction(args[0], ct.onType); ok && kindAllowed([]int64{int64(k)}, ct.kinds) {
 				found = true
